@@ -67,4 +67,10 @@ PROPS = {
         'correspondence': 'kind, address, names of NewRule(line); HostRule.Match per probe; DNS engine group (v4/v6/none) per probe; for in-grammar lines the harness also compares with the names and address the generator wrote',
         'assumptions': ['IPv6 zones are outside the modelled fragment'],
     },
+    'C12': {
+        'harness': 'c12',
+        'rule': 'single lines: every seventh line of the bundled real lists (easylist, sdn filter, hosts), cosmetic-syntax lines, hosts lines, grammar rules and degenerate short lines, one third byte-mutated, some with leading/trailing white space (CR, VT, FF) or NUL / invalid UTF-8 / multi-byte suffixes; each parsed by NewRule under recover and matched against two coupled requests under recover; lists of 3-27 such lines with blank / comment / rejected noise lines inserted, built into the three engines with and without the noise and with CRLF line endings and queried with 6 requests under recover; non-trivial = a rule was produced (line cases), every list case',
+        'correspondence': 'line cases: kind, Text(), list id and match results vs the model; list cases: sequence of rule texts the storage scanner yields vs the model line-by-line parse; Go-side flags: Text()!=TrimSpace(line), any panic, engine results changed by noise or by CRLF',
+        'assumptions': ['PARTIAL: the model expresses only the index/slice class of crashes (checked slice expressions); nil dereferences, map writes, stack exhaustion and panics inside regexp/netip are exercised by the harness under recover() only', 'lines with bytes >= 0x80 in network rules are outside the modelled fragment (Go-side checks still apply)'],
+    },
 }
